@@ -77,6 +77,7 @@ type Config struct {
 	Concrete    map[string]uint64 // selftest: concrete values for vars
 	Verbose     bool
 	MaxViol     int
+	WallLimit   time.Duration // per harness; exceeding it makes the result inconclusive
 }
 
 type Engine struct {
@@ -684,6 +685,21 @@ func (e *Engine) RunHarness(fn *ssa.Function) *HarnessResult {
 		}()
 	}
 	defer close(stopProgress)
+	if e.Cfg.WallLimit > 0 {
+		go func() {
+			select {
+			case <-stopProgress:
+			case <-time.After(e.Cfg.WallLimit):
+				e.mu.Lock()
+				if !e.stopped {
+					e.stopped = true
+					e.res.Inconclusive = append(e.res.Inconclusive, fmt.Sprintf("wall-clock limit %v reached after %d paths (exploration incomplete)", e.Cfg.WallLimit, e.res.Paths))
+					e.cond.Broadcast()
+				}
+				e.mu.Unlock()
+			}
+		}()
+	}
 	for j := 0; j < jobs; j++ {
 		wg.Add(1)
 		go func() {
